@@ -25,6 +25,22 @@
       spec's access list;
     * `C02_strict_cex_*`: without the two plugin disjuncts the statement would be false
       (by-design derivations outside the property's documented list).
+  CLASS ENTRIES (model: `FileA.classAnalyse`, `FileA.visitEnum`; lemmas: Lemmas/ClassEntries.lean).
+  The synthetic initialiser of an Enum-by-heuristic class without `__init__` has no body; its gets
+  are the `Name`s of the SHARED symbol table that start with `<Class>.` [interp: `heuristicInit` —
+  admitted are `<Class>.<m>` for the identifiers `m` the class body itself stores to at class
+  scope, `FileA.ownStoresL`].
+    * `C02_enum_entry_is_classAnalyse`: `FileA.enumEntry` IS the entry `classAnalyse` files;
+    * `C02_enum_entry_shape` (all inputs): no sets / dels / calls; every get starts with `<Class>.`
+      and is a Name the table already held or one the walk of THIS class body registered;
+    * `C02_enum_filter_rejects_other_class`, `C02_enum_filter_rejects_dotless`,
+      `C02_class_walk_adds_only_own_names`, `C02_enum_sweep_unchanged_by_other_class` (all inputs):
+      attributes of any other class — also one whose identifier EXTENDS the enum's — and
+      module-level names never enter the sweep;
+    * `C02_enum_partial`: on plain member statements, from a table without `<Class>.…` leftovers,
+      every get is `<Class>.<m>`, `m` stored by the class body itself;
+    * `C02_enum_full` is FALSE on the pinned code: `C02_cex_enum_attr_target_base`,
+      `C02_cex_enum_nested_scope`, `C02_cex_enum_same_named_class`.
   [interp] (i) spellings are those of rattr's namer `names_of` (README agreement is C10);
   (ii) an assignment target is "stored" by position (`Role.target`), a walrus records the BASE
   name of its target (= its spelling for the only valid target, a bare Name: `walrus_name`);
@@ -35,6 +51,7 @@ import RattrProofs.Lemmas.Visit
 import RattrProofs.Lemmas.VisitSpec
 import RattrProofs.Lemmas.VisitJust
 import RattrProofs.Props.C01
+import RattrProofs.Lemmas.ClassEntries
 
 namespace Rattr.C02
 open Rattr Rattr.FnA Rattr.Strs Rattr.AccessSpec Rattr.Justify
@@ -247,5 +264,155 @@ example : receiverPrefixes "a.b.c.d()".toList =
 /-- `C02_name_spelling` on `del a.b[0]` from the state `analyse` starts with. -/
 example : ∃ s', visit ⟨⟨[], []⟩, []⟩ [] (.sub (.attr (.name ['a'] .load) ['b'] .load) .const .del)
     (analyseInit [] ⟨[], [['a']], none, [], none⟩) = .ok s' := ⟨_, visit_chain _ _ _ (by decide) _⟩
+
+/-! ### class entries: the synthetic Enum initialiser -/
+
+open Rattr.FileA Rattr.RootCtx in
+/-- `FileA.enumEntry` is the entry `ClassAnalyser.analyse()` files for an Enum-by-heuristic class
+without `__init__` (under the replaced class symbol, before the static methods). -/
+theorem C02_enum_entry_is_classAnalyse (env : Env) (mn : Str) (cls : Str) (bases : List Node) (body : List Top)
+    (decos : List Ann.Deco) (s : FState) (k : FState → ClassIr → FOut) (t : St) (sy : Sym) (bn : List Str)
+    (hw : classWalkL cls (body.filter fun tp => !isMethod tp) { ctx := s.ctx } = .ok t)
+    (hi : (methodsOf body).filter (fun m => m.name = "__init__".toList) = [])
+    (hb : baseNamesPure bases = some bn) (he : heuristic "Enum" bn = true)
+    (hn : heuristic "NamedTuple" bn = false) (hsy : getClass t.ctx cls = some sy) :
+    classAnalyse env mn cls bases body decos s k =
+      staticLoop env mn cls (methodsOf body)
+        { s with ctx := updateSymbol t.ctx (enumSym sy), diags := s.diags ++ t.diags }
+        [(enumSym sy, enumIr (updateSymbol t.ctx (enumSym sy)) cls)] k ∧
+    enumEntry cls (body.filter fun tp => !isMethod tp) s.ctx = some (enumIr (updateSymbol t.ctx (enumSym sy)) cls) :=
+  classAnalyse_enum env mn cls bases body decos s k t sy bn hw hi hb he hn hsy
+
+open Rattr.FileA Rattr.RootCtx in
+/-- every enum entry, for every class body and every table: nothing under sets / dels / calls; every
+get starts with `<Class>.` and is either a `Name` the table held BEFORE this class was visited or
+`<Class>.<n>` registered by the walk of this class's own statements. -/
+theorem C02_enum_entry_shape (cls : Str) (stmts : List Top) (ctx : Context) (ir : IR)
+    (h : enumEntry cls stmts ctx = some ir) :
+    ir.sets = [] ∧ ir.dels = [] ∧ ir.calls = [] ∧
+    ∀ x ∈ ir.gets, startsWith x.full (cls ++ ['.']) = true ∧
+      ((∃ sy ∈ prefixed ctx cls, x.full = sy.name) ∨ ∃ n, x.full = cls ++ '.' :: n) :=
+  enumEntry_shape cls stmts ctx ir h
+
+/-- the filter `name.startswith("<Class>.")` rejects `<Other>.<attr>` for every other identifier,
+in particular one that extends the enum's (`ColourPalette.default` / `Colour`). -/
+theorem C02_enum_filter_rejects_other_class (cls other a : Str) (hc : '.' ∉ cls) (ho : '.' ∉ other)
+    (hne : other ≠ cls) : startsWith (other ++ '.' :: a) (cls ++ ['.']) = false :=
+  FileA.startsWith_prefix_other_class cls other a hc ho hne
+
+/-- … and every dot-free name (what the root-context builder registers for module-level
+variables, functions, classes, import aliases: `Colours`, `Colour_default`, `ColourOf`). -/
+theorem C02_enum_filter_rejects_dotless (cls n : Str) (hn : '.' ∉ n) : startsWith n (cls ++ ['.']) = false :=
+  FileA.startsWith_prefix_dotless cls n hn
+
+open Rattr.FileA Rattr.RootCtx in
+/-- the walk of a class body (every statement kind, the whole mutual block) only APPENDS symbols
+`Name "<cls>.<n>"` to the shared table. -/
+theorem C02_class_walk_adds_only_own_names (cls : Str) (stmts : List Top) (s t : St)
+    (h : classWalkL cls stmts s = .ok t) :
+    ∃ l, scopeSyms t.ctx = scopeSyms s.ctx ++ l ∧ ∀ sy ∈ l, ∃ n, sy = classAttrSym cls n := by
+  obtain ⟨l, e, p⟩ := classWalkL_addsOnly cls stmts s t h
+  exact ⟨l, e, fun sy hs => let ⟨n, _, hn⟩ := p sy hs; ⟨n, hn⟩⟩
+
+open Rattr.FileA Rattr.RootCtx in
+/-- no leak from a sibling: analysing the body of ANY other class — before the enum, with any
+identifier, also one extending the enum's — leaves what the enum initialiser of `cls` will sweep
+unchanged. -/
+theorem C02_enum_sweep_unchanged_by_other_class (cls other : Str) (hc : '.' ∉ cls) (ho : '.' ∉ other)
+    (hne : other ≠ cls) (stmts : List Top) (s t : St) (h : classWalkL other stmts s = .ok t) :
+    prefixed t.ctx cls = prefixed s.ctx cls :=
+  prefixed_of_addsOnly_other cls other hc ho hne s.ctx t.ctx (classWalkL_addsOnly other stmts s t h)
+
+open Rattr.FileA Rattr.RootCtx in
+/-- the class-entry part of C02 as a statement about the model: every get of a synthetic enum
+initialiser is `<Class>.<m>` for an identifier `m` that the class body ITSELF stores to at class
+scope. FALSE on the pinned code (`C02_enum_full_false`). -/
+def C02_enum_full : Prop :=
+  ∀ (cls : Str) (stmts : List Top) (ctx : Context) (ir : IR), enumEntry cls stmts ctx = some ir →
+    ∀ x ∈ ir.gets, ∃ m ∈ ownStoresL stmts, x.full = cls ++ '.' :: m
+
+open Rattr.FileA Rattr.RootCtx in
+/-- … true when the table holds no `<Class>.…` Name yet (no earlier definition of the same
+identifier) and the class body consists of plain member statements (`NAME = …`, tuple / starred /
+chained / annotated / augmented targets, expression statements and compound statements of those,
+without assignments nested in expressions). -/
+theorem C02_enum_partial (cls : Str) (stmts : List Top) (ctx : Context) (ir : IR)
+    (hfresh : prefixed ctx cls = []) (hp : plainStmtL stmts = true) (h : enumEntry cls stmts ctx = some ir) :
+    ∀ x ∈ ir.gets, ∃ m ∈ ownStoresL stmts, x.full = cls ++ '.' :: m :=
+  enumEntry_plain cls stmts ctx ir hfresh hp h
+
+/-- a table holding the class `E` (and `extra`) -/
+def tableE (extra : List Sym) : Context :=
+  [(({ kind := .cls, name := S "E" } : Sym) :: extra).map fun sy => (sy.name, sy)]
+def memberA : Top := .assign [.name (S "A") .store] [] (some .const)
+def fullsOf (o : Option IR) : List Str := (o.map fun ir => ir.gets.map (·.full)).getD []
+
+open Rattr.FileA in
+/-- `class E(Enum): A = 1; glob.x = 2` — the entry gets `E.glob`: `visit_AnyAssign` registers the
+BASE name of an attribute / subscript target. The class body stores to `A` only. -/
+theorem C02_cex_enum_attr_target_base :
+    let stmts := [memberA, .assign [.attr (.name (S "glob") .load) (S "x") .store] [] (some .const)]
+    fullsOf (enumEntry (S "E") stmts (tableE [])) = [S "E.A", S "E.glob"] ∧ ownStoresL stmts = [S "A"] := by
+  decide +kernel
+
+open Rattr.FileA in
+/-- `class E(Enum): A = 1; class Inner: z = 1` — the entry gets `E.z`: the walk does not stop at
+nested scopes. -/
+theorem C02_cex_enum_nested_scope :
+    let stmts := [memberA, .classDef (S "Inner") [] [.assign [.name (S "z") .store] [] (some .const)] []]
+    fullsOf (enumEntry (S "E") stmts (tableE [])) = [S "E.A", S "E.z"] ∧ ownStoresL stmts = [S "A"] := by
+  decide +kernel
+
+open Rattr.FileA in
+/-- `class E: old = 1` … `class E(Enum): A = 1` — the table still holds `E.old` of the shadowed
+definition; the entry gets it. -/
+theorem C02_cex_enum_same_named_class :
+    fullsOf (enumEntry (S "E") [memberA] (tableE [Context.nameSym (S "E.old")])) = [S "E.old", S "E.A"] ∧
+    ownStoresL [memberA] = [S "A"] := by
+  decide +kernel
+
+open Rattr.FileA in
+theorem C02_enum_full_false : ¬ C02_enum_full := by
+  intro h
+  have hc := C02_cex_enum_same_named_class
+  cases he : enumEntry (S "E") [memberA] (tableE [Context.nameSym (S "E.old")]) with
+  | none => rw [he] at hc; simp [fullsOf] at hc
+  | some ir =>
+    rw [he] at hc
+    simp only [fullsOf, Option.map_some, Option.getD_some] at hc
+    have hx : ∃ x ∈ ir.gets, x.full = S "E.old" := by
+      have : S "E.old" ∈ ir.gets.map (·.full) := by rw [hc.1]; simp
+      obtain ⟨x, hx, e⟩ := List.mem_map.mp this
+      exact ⟨x, hx, e⟩
+    obtain ⟨x, hx, e⟩ := hx
+    obtain ⟨m, hm, e'⟩ := h _ _ _ ir he x hx
+    rw [hc.2] at hm
+    simp at hm
+    subst hm
+    rw [e] at e'
+    revert e'
+    decide
+
+/-- TEST (kernel evaluation of root context + file walk): `class ColourPalette: default = 1` /
+`Colours = 1` / `class Colour(Enum): RED = 1` / `class ColourLate: after = 1` — the entry of
+`Colour` gets `Colour.RED` and nothing of the neighbours whose identifiers extend `Colour`. -/
+theorem C02_test_enum_neighbours :
+    (match FileA.analyseFile C01.envF (S "m") {} []
+        [.classDef (S "ColourPalette") [] [.assign [.name (S "default") .store] [] (some .const)] [],
+         .assign [.name (S "Colours") .store] [] (some .const),
+         .classDef (S "Colour") [.name (S "Enum") .load] [.assign [.name (S "RED") .store] [] (some .const)] [],
+         .classDef (S "ColourLate") [] [.assign [.name (S "after") .store] [] (some .const)] []] with
+     | .ok (ir, _) => ir.map fun p => (p.1.name, p.2.gets.map (·.full))
+     | _ => []) = [(S "Colour", [S "Colour.RED"])] := by decide +kernel
+
+open Rattr.FileA in
+/-- `C02_enum_partial` is not vacuous: `class E(Enum): A = 1; B, *C = 2, 3; if …: D = 4`. -/
+example :
+    let stmts : List Top :=
+      [memberA, .assign [.seq (S "Tuple") [.name (S "B") .store, .starred (.name (S "C") .store) .store] .store] [] (some .const),
+       .compound (S "If") [.expr .const, .assign [.name (S "D") .store] [] (some .const)]]
+    prefixed (tableE []) (S "E") = [] ∧ plainStmtL stmts = true ∧
+    fullsOf (enumEntry (S "E") stmts (tableE [])) = [S "E.A", S "E.B", S "E.C", S "E.D"] := by
+  decide +kernel
 
 end Rattr.C02
